@@ -7,6 +7,7 @@ package main
 import (
 	"fmt"
 	"go/constant"
+	"go/token"
 	"go/types"
 	"sort"
 	"strings"
@@ -311,7 +312,11 @@ func ruleDecoderAccepts(w *World, r *Recorder, rule, key string, ol OptionLitera
 		}
 		r.Check(n >= int64(most) && most > 0, rule, key+"#accepts:MaxMapPairs", w.FnPos(ol.Fn), fmt.Sprintf("the largest map the encoder emits has %d pairs ≤ the decoder's limit %d", most, n), fmt.Sprintf("the decoder rejects maps of more than %d pairs but the encoder emits maps of up to %d", n, most))
 	}
-	if n, ok := eff("MaxNestedLevels", 32); ok {
+	if n, ok := eff("MaxNestedLevels", 32); ok && mode == "any-map" {
+		// the limit is applied to the whole item before keys are matched, so it
+		// also covers the values of unknown keys, which are to be ignored
+		r.Refute(rule, fmt.Sprintf("%s#accepts:MaxNestedLevels=%d", key, n), w.FnPos(ol.Fn), fmt.Sprintf("the decoder rejects items nested deeper than %d levels, including the value of an unknown extra key, while unknown keys are to be ignored: a conformant token with an unknown key whose value nests %d arrays deep is rejected", n, n))
+	} else if ok {
 		r.Check(n >= 4, rule, key+"#accepts:MaxNestedLevels", w.FnPos(ol.Fn), fmt.Sprintf("nesting limit %d ≥ 4 > depth of a claims map (map > array > map)", n), fmt.Sprintf("nesting limit %d is below the depth of a claims map", n))
 	} else {
 		r.Undecide(rule, key+"#accepts:MaxNestedLevels", w.FnPos(ol.Fn), "limit is not an integer constant")
@@ -668,6 +673,29 @@ func checkC10(w *World, r *Recorder) propInfo {
 		c15Walker(w, sub, "doSerializeStructToCBOR")
 		remap(r, sub, map[string]string{"C15-H4": "C10-W9"})
 	}
+	// W10: the map length header written for extension profiles follows the CBOR table
+	if sf := w.encMapType("CBOR"); sf != nil {
+		sub := NewRecorder(r.Property)
+		c15Writer(w, sub, sf)
+		remap(r, sub, map[string]string{"C15-H1": "C10-W10"})
+	}
+	// W11: profile 1 never emits both lists — a claims-set that validates has
+	// not both a non-empty component list and a *present* no-measurements flag
+	// (presence is what the encoder's omitempty tests), decided on the cells of
+	// the component getter as in C01-R2
+	if t := w.NamedType(w.Root, "P1Claims"); t != nil {
+		rows := builtinSpecs["P1Claims"]
+		for i := range rows {
+			if rows[i].Rule != ruleComponents {
+				continue
+			}
+			if fn := w.MethodImpl(t, rows[i].Getter); fn != nil {
+				sub := NewRecorder(r.Property)
+				c01ComponentsGetter(w, sub, t, fn, &rows[i])
+				remap(r, sub, map[string]string{"C01-R2": "C10-W11"})
+			}
+		}
+	}
 	r.Floor("C10-W1", 26)
 	r.Floor("C10-W3", 26)
 	r.Floor("C10-W4", 1)
@@ -703,6 +731,16 @@ func checkC09(w *World, r *Recorder) propInfo {
 		c15Walker(w, sub, "doSerializeStructToCBOR")
 		c15Walker(w, sub, "doPopulateStructFromCBOR")
 		remap(r, sub, map[string]string{"C15-H4": "C09-I7"})
+	}
+	// I8: the length header the embedding-aware serialiser writes, and the one
+	// its reader accepts, follow the CBOR table for every entry count (a wrong
+	// boundary makes the library unable to decode its own extension-profile encoding)
+	if sf := w.encMapType("CBOR"); sf != nil {
+		sub := NewRecorder(r.Property)
+		c15Writer(w, sub, sf)
+		c15Reader(w, sub)
+		c15Compose(w, sub, sf)
+		remap(r, sub, map[string]string{"C15-H1": "C09-I8", "C15-H2": "C09-I8", "C15-H3": "C09-I8"})
 	}
 	r.Floor("C09-I1", 1)
 	r.Floor("C09-I2", 2)
@@ -860,6 +898,10 @@ func checkC12(w *World, r *Recorder) propInfo {
 		c15Walker(w, sub, "doPopulateStructFromJSON")
 		remap(r, sub, map[string]string{"C15-H4": "C12-J8"})
 	}
+	// J9: the dispatching decoder looks at the generic form of the object only
+	// to find the profile member: it reads no other member, so it cannot reject
+	// (or treat differently) an object that the profile's own decoder accepts
+	c12DispatcherReadsOnlyProfileMembers(w, r, "C12-J9")
 	r.Floor("C12-J1", 26)
 	r.Floor("C12-J2", 26)
 	r.Floor("C12-J3", 8)
@@ -901,6 +943,10 @@ func nilledOnlyWhenEmpty(shape string) bool {
 		empty := false
 		for _, c := range strings.Split(parts[0], " ∧ ") {
 			if strings.Contains(c, ".IsEmpty") && !strings.HasPrefix(c, "¬") {
+				empty = true
+			}
+			// assigning nil to a container field that is nil already changes nothing
+			if strings.HasPrefix(c, "nil(") && strings.HasSuffix(c, ".SwComponents)") {
 				empty = true
 			}
 		}
@@ -969,4 +1015,86 @@ func ruleEncodeReturnsCodecOutput(w *World, r *Recorder, rule string, json bool)
 		}
 		r.Check(ok && succ > 0, rule, n, w.FnPos(fn), "returns the codec's output for its argument unchanged", why)
 	}
+}
+
+// c12DispatcherReadsOnlyProfileMembers: in DecodeClaimsFromJSON the map the
+// buffer is first decoded into is used only for lookups keyed by a registered
+// profile's JSON tag (directly, or in an in-repo helper it is handed to).
+func c12DispatcherReadsOnlyProfileMembers(w *World, r *Recorder, rule string) {
+	fn := w.Root.Func("DecodeClaimsFromJSON")
+	reg := registerGlobal(w)
+	if fn == nil || reg == nil {
+		r.Undecide(rule, "DecodeClaimsFromJSON", "-", "decoder or register not found")
+		return
+	}
+	// the generic destination: address handed to the first json.Unmarshal
+	var dest *ssa.Alloc
+	for _, b := range fn.Blocks {
+		for _, in := range b.Instrs {
+			if c, ok := in.(*ssa.Call); ok && dest == nil && calleeName(&c.Call) == "encoding/json.Unmarshal" && len(c.Call.Args) == 2 {
+				if al, ok := stripIface(c.Call.Args[1]).(*ssa.Alloc); ok {
+					if _, isMap := al.Type().(*types.Pointer).Elem().Underlying().(*types.Map); isMap {
+						dest = al
+					}
+				}
+			}
+		}
+	}
+	if dest == nil {
+		r.Undecide(rule, "DecodeClaimsFromJSON#generic-map", w.FnPos(fn), "no generic map destination of a first json.Unmarshal found")
+		return
+	}
+	bad := ""
+	var at ssa.Instruction
+	var checkUses func(m ssa.Value, depth int)
+	checkUses = func(m ssa.Value, depth int) {
+		if depth > 3 || m.Referrers() == nil {
+			return
+		}
+		for _, ref := range *m.Referrers() {
+			switch x := ref.(type) {
+			case *ssa.DebugRef:
+			case *ssa.Lookup:
+				if x.X != m {
+					continue
+				}
+				src, _ := registerSource(x.Index, reg)
+				if src != "iteration" {
+					// a key that is a parameter of a helper handed the tag is fine
+					if _, isParam := x.Index.(*ssa.Parameter); !isParam {
+						bad, at = "it looks up a member whose name does not come from a registered profile's JSON tag", x
+					}
+				}
+			case *ssa.Call:
+				h := x.Call.StaticCallee()
+				if h == nil || !w.InRepo(h) || h.Blocks == nil {
+					if b, isB := x.Call.Value.(*ssa.Builtin); isB && b.Name() == "len" {
+						continue
+					}
+					bad, at = "it hands the decoded object to "+calleeName(&x.Call), x
+					continue
+				}
+				for i, a := range x.Call.Args {
+					if a == m && i < len(h.Params) {
+						checkUses(h.Params[i], depth+1)
+					}
+				}
+			case *ssa.Range:
+				bad, at = "it iterates over all members of the decoded object", x
+			case *ssa.MakeInterface, *ssa.Store, *ssa.MapUpdate, *ssa.Phi, *ssa.Return:
+				bad, at = "the decoded object escapes the dispatcher", x.(ssa.Instruction)
+			}
+		}
+	}
+	for _, ref := range *dest.Referrers() {
+		if ld, ok := ref.(*ssa.UnOp); ok && ld.Op == token.MUL {
+			checkUses(ld, 0)
+		}
+	}
+	pos := w.FnPos(fn)
+	if at != nil {
+		pos = w.InstrPos(at)
+	}
+	r.Check(bad == "", rule, "DecodeClaimsFromJSON#reads-only-profile-members", pos, "the generic form of the object is consulted only under the registered profiles' JSON tags",
+		"the dispatcher inspects more of the object than the profile member: "+bad+" — it can then reject, or treat differently, JSON that the profile's own decoder accepts (the library's own encoding included)")
 }
